@@ -98,6 +98,8 @@ class BasicEmbeddingsIndex(EmbeddingsIndex):
         self._current_batch_finished_event = None
         self._current_batch_full_event = None
         self._current_batch_submitted = asyncio.Event()
+        # The event loop the batching state above belongs to
+        self._batch_loop = None
 
         # Initialize the batching configuration
         self.use_batching = use_batching
@@ -236,6 +238,17 @@ class BasicEmbeddingsIndex(EmbeddingsIndex):
             batch_event.set()
 
     async def _batch_get_embeddings(self, text: str) -> List[float]:
+        loop = asyncio.get_running_loop()
+        if self._batch_loop is not loop:
+            # Whatever is left of an earlier batch belongs to an event loop that was given up
+            # (e.g. `asyncio.run` with a timeout, Ctrl-C): nobody will run that batch any more.
+            self._batch_loop = loop
+            self._req_queue = {}
+            self._req_results = {}
+            self._current_batch_finished_event = None
+            self._current_batch_full_event = None
+            self._current_batch_submitted = asyncio.Event()
+
         # As long as the queue is full, we wait for the next batch
         while len(self._req_queue) >= self.max_batch_size:
             await self._current_batch_submitted.wait()
